@@ -40,6 +40,15 @@ ASSUMPTIONS.append('items pushed into a heap are ordered by a strict weak '
 
 
 ITEM_HOOKS = {'lift': None, 'reflect': None}
+ITEM_HOOKS_BY_MODULE = {}      # module short name -> {'lift':..., 'reflect':...}
+
+
+def item_hook(ctx, which):
+  mod = getattr(ctx.unit, 'modname', None)
+  h = ITEM_HOOKS_BY_MODULE.get(mod)
+  if h is not None:
+    return h.get(which)
+  return ITEM_HOOKS.get(which)
 
 
 class VListRef(V):
@@ -57,7 +66,7 @@ class VListRef(V):
     h = lheap(ex.ctx)
     ref = self.ref
     bag = z3.Select(h['bag'], ref)
-    lift = ITEM_HOOKS['lift']
+    lift = item_hook(ex.ctx, 'lift')
     if lift is None:
       ex.unsupported(node, 'iteration over a list of abstract items')
 
@@ -446,3 +455,76 @@ def _comb(ex, args, kwargs, node):
   t = BINOM(n, k)
   ex.ctx.assume(t >= 0)
   return VInt(t)
+
+
+# ---------------------------------------------------------------------------
+# strings and timestamps (utils.find_days_to_exclude / expand_time_windows)
+
+StrSort = sort_named('Str')
+TsSort = sort_named('Ts')
+NPIECES = z3.Function('NPIECES', StrSort, z3.IntSort())
+PIECE = z3.Function('PIECE', StrSort, z3.IntSort(), StrSort)
+TS = z3.Function('TS', StrSort, TsSort)
+TS_BAD = z3.Function('TS_BAD', StrSort, z3.BoolSort())
+TS_GT = z3.Function('TS_GT', TsSort, TsSort, z3.BoolSort())
+DR = z3.Function('DR', TsSort, TsSort, z3.SetSort(TsSort))
+DR_BAD = z3.Function('DR_BAD', TsSort, TsSort, z3.BoolSort())
+
+
+@vmethod('opaque:Str', 'split')
+def _str_split(ex, recv, args, kwargs, node):
+  """s.split(sep): a non-empty list of pieces (their number and contents are
+  uninterpreted functions of s)."""
+  ctx = ex.ctx
+  n = NPIECES(recv.t)
+  ctx.assume(n >= 1)
+  s = recv.t
+  return VSeq(n, lambda i: PIECE(s, i), StrSort, None, False,
+              sid=z3.Int(ctx.sym('pieces.sid')))
+
+
+@lib('pandas.Timestamp',
+     'pandas.Timestamp(s) either raises ValueError or returns a timestamp '
+     'that is a function of s (NaT included)')
+def _timestamp(ex, args, kwargs, node):
+  v = args[0]
+  if isinstance(v, VOpaque) and v.okind == 'Ts':
+    return v
+  if not (isinstance(v, VOpaque) and v.okind == 'Str'):
+    ex.unsupported(node, 'Timestamp(%s)' % v.kind)
+  from mmverif.engine.symexec import RaiseSig
+  if ex.ctx.branch(TS_BAD(v.t)):
+    raise RaiseSig('ValueError', 'Timestamp')
+  return VOpaque(TS(v.t), 'Ts')
+
+
+class VDateRange(V):
+  kind = 'daterange'
+
+  def __init__(self, a, b):
+    self.a, self.b = a, b
+
+  def py_getattr(self, ex, name, node):
+    if name == 'to_list':
+      from mmverif.engine.pandas_ledger import VBound
+      a, b = self.a, self.b
+
+      def f(ex_, args, kwargs, n_):
+        out = TSeq(TsSort, dupfree=True).fresh(ex_.ctx, 'days')
+        ex_.ctx.assume(out.elems == DR(a, b))
+        return out
+      return VBound(f)
+    ex.unsupported(node, 'date_range attribute %s' % name)
+
+
+@lib('pandas.date_range',
+     'pandas.date_range(a, b, freq="D") either raises ValueError (NaT '
+     'bounds) or is the duplicate-free list of the days DR(a, b)')
+def _date_range(ex, args, kwargs, node):
+  a, b = args[0], args[1]
+  if not all(isinstance(v, VOpaque) and v.okind == 'Ts' for v in (a, b)):
+    ex.unsupported(node, 'date_range of non-timestamps')
+  from mmverif.engine.symexec import RaiseSig
+  if ex.ctx.branch(DR_BAD(a.t, b.t)):
+    raise RaiseSig('ValueError', 'date_range')
+  return VDateRange(a.t, b.t)
